@@ -11,7 +11,7 @@ ID = 'C10'
 
 BOUNDS = {
     'quick': dict(nodes=4, depth=3, rotations=12, layouts=D.LAYOUTS, big=0),
-    'thorough': dict(nodes=6, depth=3, rotations=12, layouts=D.LAYOUTS, big=7),
+    'thorough': dict(nodes=5, depth=3, rotations=12, layouts=D.LAYOUTS, big=6),
 }
 NSH = 64
 
